@@ -83,7 +83,11 @@ func init() {
 	intrinsicsByName[bi+"Neg"] = un(func(x string) string { return tApp("-", x) })
 	intrinsicsByName[bi+"Abs"] = un(func(x string) string { return tApp("abs", x) })
 	intrinsicsByName[bi+"SetUint64"] = func(e *Env, st *State, args []Val, rt types.Type, c *ssa.CallCommon) []Out {
-		return one(st, e.bigSet(st, args[0], tApp("bv2nat", e.term(st, args[1])), pos(c)))
+		t := e.term(st, args[1])
+		if x, _, ok := bvLitVal(t); ok {
+			return one(st, e.bigSet(st, args[0], fmt.Sprintf("%d", x), pos(c)))
+		}
+		return one(st, e.bigSet(st, args[0], tApp("bv2nat", t), pos(c)))
 	}
 	intrinsicsByName[bi+"SetInt64"] = func(e *Env, st *State, args []Val, rt types.Type, c *ssa.CallCommon) []Out {
 		return one(st, e.bigSet(st, args[0], sbvToInt(e.term(st, args[1])), pos(c)))
@@ -98,6 +102,12 @@ func init() {
 		}
 		cell := e.newCell(st, Val{K: kTerm, Typ: mathIntType(), Sort: sInt, T: it})
 		return one(st, Val{K: kPtr, Typ: types.NewPointer(lookupNamed(e, "math/big", "Int")), Ptr: &Pointer{Cell: cell}})
+	}
+	intrinsicsByName["github.com/ethereum/go-ethereum/common/math.BigMax"] = func(e *Env, st *State, args []Val, rt types.Type, c *ssa.CallCommon) []Out {
+		// returns whichever argument is larger (x when equal): a pointer to that value
+		x, y := e.bigVal(st, args[0], pos(c)), e.bigVal(st, args[1], pos(c))
+		cell := e.newCell(st, Val{K: kTerm, Typ: mathIntType(), Sort: sInt, T: tIte(tApp("<", x, y), y, x)})
+		return one(st, Val{K: kPtr, Typ: args[0].Typ, Ptr: &Pointer{Cell: cell}})
 	}
 	intrinsicsByName[bi+"SetBytes"] = func(e *Env, st *State, args []Val, rt types.Type, c *ssa.CallCommon) []Out {
 		// big-endian unsigned: an uninterpreted non-negative function of the bytes
